@@ -170,8 +170,19 @@ def strat():
     return st.fixed_dictionaries({'p': gen.progs(CFG)})
 
 
+def enum_small(tier):
+    for names, depth, text in gen.small_scopes(tier):
+        for i, p in enumerate(gen.small_values(names, depth, text)):
+            yield {'p': p}
+            if i % 7 == 0:
+                yield {'p': dict(p, cls='s')}
+
+
 SUBS = [
     Sub('render', eval_render, strategy=strat, quick=500, thorough=8000),
+    Sub('small_exhaustive', eval_render, enumerate=enum_small,
+        rule='every value reachable from a plain text by <= 2 apply/remove steps over {red, blue, bold} on 3 characters and by <= 3 steps over {red, blue} on 2 (thorough: 3) characters, each rendered under all 8 flag combinations',
+        exhaustive_note='all values of the small scopes (staggered, duplicate, below-inserted and partly removed settings)'),
     Sub('bridge', eval_bridge, enumerate=enum_bridges,
         rule='all ordered pairs of %d style states x 4 layouts x {alone, on top of four other-group settings} x 8 flag combinations' % len(STATES),
         exhaustive_note='every ordered pair of style states from the pool (all effect groups: apply, clear, 256/rgb colour, two-setting states; plus reset/unknown/multi-group companions) in 4 layouts'),
